@@ -5,7 +5,7 @@
   Values: naturals; entries `i.t.k.d` (configuration entries `i.t.2.d.<config>`);
   configurations `c<index>/<id>v/<id>n…`; lists separated by `;` (`-` = empty).
 -/
-import RaftVerif.Model.Leader
+import RaftVerif.Model.Snapshot
 namespace Raft.Text
 
 def natOr (s : String) (d : Nat := 0) : Nat := (s.toNat?).getD d
@@ -86,13 +86,32 @@ def parseRead (s : String) : PendingRead :=
   | [t, l, ri, v, sq] => { tag := natOr t, lease := parseBool l, readIndex := natOr ri, verified := parseBool v, seq := natOr sq }
   | _ => default
 
+def showBytesN (b : List Nat) : String :=
+  if b.isEmpty then "-" else String.ofList (b.flatMap (fun x =>
+    let h := fun (d : Nat) => if d < 10 then Char.ofNat (48 + d) else Char.ofNat (87 + d)
+    [h (x / 16), h (x % 16)]))
+def parseBytesN (s : String) : List Nat :=
+  if s == "-" || s == "" then [] else
+  let hv := fun (c : Char) => if c.toNat ≥ 48 ∧ c.toNat ≤ 57 then c.toNat - 48 else if c.toNat ≥ 97 ∧ c.toNat ≤ 102 then c.toNat - 87 else 0
+  let rec go : List Char → List Nat
+    | a :: b :: rest => (hv a * 16 + hv b) :: go rest
+    | _ => []
+  go s.toList
+
 def showRecv : Option RecvSnap → String
   | none => "nil"
-  | some r => s!"{r.index}.{r.term}.{r.written}"
+  | some r => s!"{r.index}.{r.term}.{r.written}.{showBytesN r.data}"
 def parseRecv (s : String) : Option RecvSnap :=
   match s.splitOn "." with
   | [i, t, w] => some { index := natOr i, term := natOr t, written := natOr w }
+  | [i, t, w, d] => some { index := natOr i, term := natOr t, written := natOr w, data := parseBytesN d }
   | _ => none
+
+def showSnapFile (f : SnapFile) : String := s!"{f.index}.{f.term}.{showBytesN f.data}"
+def parseSnapFile (s : String) : SnapFile :=
+  match s.splitOn "." with
+  | [i, t, d] => { index := natOr i, term := natOr t, data := parseBytesN d }
+  | _ => default
 
 /-- key=value section → lookup -/
 abbrev KV := List (String × String)
@@ -139,7 +158,8 @@ def showNode (n : Node) : String :=
     s!"recv={showRecv n.recv}", s!"et={n.et}", s!"ld={n.leaseDur}",
     s!"rvr={joinList (n.rvRounds.map (fun r => s!"{r.1}.{r.2}"))}",
     s!"aer={joinList (n.aeRounds.map (fun r => s!"{r.1}.{r.2.1}.{r.2.2}"))}", s!"nr={n.nextRound}",
-    s!"rs={n.readSeq}", s!"pw={showBool n.prevoteWon}" ]
+    s!"rs={n.readSeq}", s!"pw={showBool n.prevoteWon}",
+    s!"snaps={joinList (n.snaps.map showSnapFile)}" ]
 
 def parseNode (s : String) : Node :=
   let kv := parseKV s
@@ -158,7 +178,8 @@ def parseNode (s : String) : Node :=
     et := natOr (kv.get "et" "300") 300, leaseDur := natOr (kv.get "ld" "100") 100,
     rvRounds := (splitList (kv.get "rvr" "-")).map parseRound,
     aeRounds := (splitList (kv.get "aer" "-")).map parseRound3,
-    nextRound := natOr (kv.get "nr"), readSeq := natOr (kv.get "rs"), prevoteWon := parseBool (kv.get "pw" "0") }
+    nextRound := natOr (kv.get "nr"), readSeq := natOr (kv.get "rs"), prevoteWon := parseBool (kv.get "pw" "0"),
+    snaps := (splitList (kv.get "snaps" "-")).map parseSnapFile }
 
 def showEffect : Effect → String
   | .setState t v => s!"ss({t},{v})"
@@ -209,5 +230,16 @@ def parseRVResp (s : String) : Option RVResp :=
   if s.trimAscii.toString == "err" then none else
   let kv := parseKV s
   some { term := natOr (kv.get "term"), granted := parseBool (kv.get "ok") }
+
+def parseISReq (s : String) : ISReq :=
+  let kv := parseKV s
+  { leaderId := natOr (kv.get "leader"), term := natOr (kv.get "term"), lastIndex := natOr (kv.get "li"),
+    lastTerm := natOr (kv.get "lt"), config := parseConfig (kv.get "cfg" "c0"), offset := natOr (kv.get "off"),
+    data := parseBytesN (kv.get "data" "-"), isDone := parseBool (kv.get "done") }
+def showISResp (r : ISResp) : String := s!"term={r.term} bw={r.bytesWritten}"
+def showISNext : ISNext → String
+  | .reply => "reply"
+  | .waitApplied => "wait"
+  | .restore f => s!"restore.{showSnapFile f}"
 
 end Raft.Text
